@@ -169,18 +169,25 @@ func genC04(env *core.Env, emit func(core.Case)) {
 				Sig: fmt.Sprintf("retry-%s/%s", rc.Kind, rd.Err), Sample: map[string]any{"rule": "retry-" + rc.Kind, "outcome": rd.Err, "alert": fmt.Sprintf("%x", rd.Out), "closed": rd.Closed}})
 			env.Count("retry-" + rc.Kind + "/" + rd.Err)
 		}
-		// R4 sniNotPublicName
-		{
+		// R4 sniNotPublicName: another name, a near miss, another spelling of the same name, an empty
+		// host name, no server_name extension at all
+		for variant := 0; variant < 6; variant++ {
 			plan, key := mkPlan()
 			ob := *plan.OuterBase
 			ob.Exts = slices.Clone(ob.Exts)
 			for i, e := range ob.Exts {
 				if e.Type == 0 {
-					switch r.IntN(3) {
+					switch variant {
 					case 0:
 						ob.Exts[i] = gen.SNI("other.example")
 					case 1:
 						ob.Exts[i] = gen.SNI("public.exampl")
+					case 2:
+						ob.Exts[i] = gen.SNI("public.example.")
+					case 3:
+						ob.Exts[i] = gen.SNI("PUBLIC.example")
+					case 4:
+						ob.Exts[i] = gen.SNI("")
 					default:
 						ob.Exts = slices.Delete(ob.Exts, i, i+1) // no SNI at all
 					}
@@ -188,7 +195,7 @@ func genC04(env *core.Env, emit func(core.Case)) {
 				}
 			}
 			plan.OuterBase = &ob
-			run("sniNotPublicName", "-", []string{"illegal"}, plan, key, true, nil)
+			run("sniNotPublicName", fmt.Sprintf("v%d", variant), []string{"illegal"}, plan, key, true, nil)
 		}
 		// R5 innerLacksInnerEch
 		{
